@@ -106,6 +106,62 @@ P = {
        "hash types with lock time/sequence/amount at their unsigned and signed edges.",
   note=TB + "SHA-256d opaque.",
   tech="Lean 4 proof (Model = BIP143 Spec; definedness = dead error branches) + correspondence"),
+ 'C09': dict(
+  text="Lean theorems over all operation histories on a heap model with Python reference semantics (objects, shared "
+       "children, per-object hash caches, from_* constructors as coded, RawSignatureHash executed on the heap): "
+       "invariant (immutable roots reach only immutable objects; filled caches equal the hash of the current "
+       "serialisation; no mutable object shared between copies) holds initially and is preserved by every operation "
+       "(inv_reachable), the heap model refines the pure value-semantics spec on every observable "
+       "(refines_value_spec), setattr/delattr on immutables rejected with the state unchanged, sighash/verify "
+       "preserve every existing object (sighash_keeps_objects, verify_keeps_objects), copies unaffected by later "
+       "edits (copy_unaffected). Tied by random histories (all histories ≤ 3 ops exhaustively in the thorough tier) "
+       "executed on real objects and on the model, comparing serialisation/ids/hash/== of every live object after "
+       "every step.",
+  note=TB + "Objects are created through the property's operation catalogue only; witness-v0 sighash is modelled by its heap footprint.",
+  tech="Lean 4 proof (invariant by induction over histories + refinement to a value spec) + correspondence on operation histories"),
+ 'C19': dict(
+  text="Lean theorems: amount_in_exact (any JSON number text denoting k satoshis is converted to exactly k, incl. the "
+       "number scanner and Decimal's 28-digit context), hash_roundtrip / b2lx_is_core_form (byte-reversed hex both "
+       "ways), hex_transport, error_reply_raises (a non-null error always raises the class registered for its code, "
+       "never a result — registered, unregistered, missing, non-dict), ids_strictly_increase over all call "
+       "histories. PARTIAL on the send side: amount_out_exact_partial is proved over the rationals with binary64 "
+       "spacing and the shortest-repr contract as hypotheses (IEEE-754/float.__repr__ are not modelled); every "
+       "request body is re-parsed with exact decimal arithmetic in the run. Tied by T1 (error-code table) and an "
+       "injected scripted HTTP connection.",
+  note=TB + "Partial: float(amount)/COIN and float.__repr__ are covered by the correspondence run only.",
+  tech="Lean 4 proof (decimal exactness, decision logic, counter invariant) + tables + correspondence via injected connection"),
+ 'C20': dict(
+  text="Lean theorems for every seed/tweak and every byte list: Python-int MurmurHash3 with late masking = UInt32 "
+       "reference (murmur_eq_spec), bits set by insert = BIP37 schedule (bits_eq_schedule), contains = membership "
+       "predicate, no_false_negative over all histories of inserts and wire round trips, caps (≤ 36000 bytes, ≤ 50 "
+       "functions) for all sizing inputs, ser_roundtrip, empty_matches_all. PARTIAL: math.log and the float products "
+       "of the constructor are abstract rationals. Tied by T1 (caps, flags) and runs over all tail lengths, insertion "
+       "histories interleaved with queries and round trips, wire filters with empty data.",
+  note=TB + "Partial: the exact size for (nElements, nFPRate) is not claimed (floating point).",
+  tech="Lean 4 proof (UInt32 wrap-around = masked Nat arithmetic; monotone-bits invariant over histories) + tables + correspondence"),
+ 'C13': dict(
+  text="Proof for what python-bitcoinlib itself computes (the glue), partial overall. Lean theorems: strict-DER "
+       "encode/decode round trip and strictness (der_roundtrip, der_strict), CompareBigEndian = sign of the integer "
+       "difference, IsLowDERSignature ⇔ 0 < s ≤ n/2 on strict DER with no IndexError (isLowDer_iff), low-S "
+       "normalisation spec (∈ {s, n−s}, low, idempotent), CECKey.sign = strict DER of (r, lowS s), WIF payload layout "
+       "and round trip under every chain's version byte, curve-constant kernel checks (G on curve, n·G = ∞), abstract "
+       "ECDSA over any prime-order group (verify_sign, verify_lowS_twin). PARTIAL: the elliptic-curve arithmetic runs "
+       "inside OpenSSL; k·G, ECDSA_sign/verify, point validation are tied only by the correspondence run against the "
+       "independent Lean secp256k1 (secrets 1,2,n−1,n−2,…; verification matrix incl. twins, 0, n; on/off-curve, "
+       "hybrid keys; four chains). T1: chain version bytes.",
+  note=TB + "Not proved: that the Lean secp256k1 formulas form a group of order n; OpenSSL behaviour; random nonces. These are covered by T2 only.",
+  tech="Lean 4 proof of the glue (DER, low-S, WIF, header bytes) + abstract ECDSA algebra + correspondence against a Lean reference curve"),
+ 'C14': dict(
+  text="Proof for the glue, partial overall. Lean theorems: message digest = SHA-256d of varint-prefixed magic ‖ "
+       "varint-prefixed UTF-8 message for any length (msg_digest_eq_spec), header byte 27+recid+4·compressed and its "
+       "inverse (header_roundtrip), sign_compact layout (r‖s 32-byte big-endian, recid < 4), VerifyMessage's decision "
+       "(true only for the address of the recovered key and the same message), abstract recovery algebra "
+       "(recover_correct). UNPROVED (kept at full strength in Props/C14.lean): recover_eq_reference (the Python "
+       "recovery code = SEC1 §4.1.6). PARTIAL: OpenSSL arithmetic is tied only by the run: Lean recovery reproduces "
+       "the signer's key, VerifyMessage true for the signer's P2PKH address, false for other keys, other address "
+       "types with the same hash160, and perturbed messages.",
+  note=TB + "OpenSSL (BN_*, EC_POINT_*) inside recover is covered by T2 only.",
+  tech="Lean 4 proof of the glue (digest layout, header byte, decision logic) + abstract recovery algebra + correspondence against a Lean reference curve"),
 }
 
 REASON_PENDING = "check under construction in this build round (model/theorems not yet merged); see DESIGN.md §10/§11"
